@@ -376,8 +376,8 @@ pub fn run(ctx: &Ctx) {
     rep.assume("the surface syntax has no range patterns: ranges only occur in printed witnesses ([a...b], MIN, MAX), which are parsed");
     rep.assume("'the witness it reports is really uncovered' is read as: every printed witness is a pattern of the scrutinee type that denotes at least one value and only values matched by no arm");
     rep.assume("a non-exhaustive match cannot be executed; its run-time half is checked on the same arms followed by a final `_` arm");
-    rep.assume("a compilation that does not terminate within 120 s ends the check as inconclusive (exit 2), not as a violation");
-    crate::watch::spawn_watchdog("C14", 120);
+    rep.assume("a compilation that does not terminate within 600 s ends the check as inconclusive (exit 2), not as a violation");
+    crate::watch::spawn_watchdog("C14", 600);
     corpus_check(&rep);
     let cases = ctx.cases(1500, 40_000);
     let rt_every: u64 = 4;
